@@ -39,7 +39,6 @@ def _():
 def _(c):
     c.param("iterables", "seq[seq]")
     c.returns("seq")
-    c.callee("OrderedDict.fromkeys", lambda k: (k.param("seq_", "seq"), k.returns("val"), setattr(k, "functional", True)))
-    c.callee("chain.from_iterable", lambda k: (k.param("x", "seq"), k.returns("seq"), setattr(k, "functional", True)))
-    c.ensures("True", name="executes_without_consulting_a_set_order")
-    c.assume("OrderedDict.fromkeys keeps first-occurrence order (insertion-ordered de-duplication); no set is iterated")
+    c.ensures("forall(lambda x: contains(result, x) == exists(lambda k: 0 <= k and k < len(iterables) and contains(iterables[k], x), 'int'), 'val')", name="members_are_exactly_the_members_of_the_operands")
+    c.ensures("distinct(result)", name="no_duplicates")
+    c.assume("OrderedDict.fromkeys keeps first-occurrence order (insertion-ordered de-duplication, modelled as dict.fromkeys); no set is iterated; members are compared by identity (definition nodes are AST nodes, whose == is identity)")
